@@ -2,6 +2,7 @@ package main
 
 import (
 	"fmt"
+	"regexp"
 	"strings"
 	"sync"
 	"time"
@@ -22,6 +23,52 @@ func longInputs(n int) []string {
 		strings.Repeat("[", n), "[" + d + "," + d + "]", "^" + d, "~" + d + "." + d, ">=" + d, strings.Repeat("x.", n/2) + "x",
 		"v" + d + "." + d + "." + d + "-" + d, strings.Repeat("\xff", n), strings.Repeat("\x00", n), strings.Repeat("é", n/2),
 	}
+}
+
+// pre-/post-release spellings of any ecosystem; the parser keeps the ones it accepts
+var c06ExtraPre = []string{"rc1", "a1", "b2", ".dev3", "-alpha", "-rc.1", "-beta.2", "_rc1", "~rc1", ".post1", "-SNAPSHOT", "+build"}
+
+var dottedRun = regexp.MustCompile(`(\d+!)?\d+(\.\d+)*`)
+
+// prefixRelatives: for every dotted number group written in a range text, the versions made of
+// its first k components (k = 1..n), of all its components followed by .0 / .1, each also with
+// every pre-release spelling of the ecosystem and with a changed last component.
+func prefixRelatives(rng, prefix string, pres []string) []string {
+	seen := map[string]bool{}
+	var out []string
+	add := func(s string) {
+		if !seen[s] {
+			seen[s] = true
+			out = append(out, s)
+		}
+	}
+	for _, m := range dottedRun.FindAllString(rng, 4) {
+		epoch := ""
+		if i := strings.IndexByte(m, '!'); i >= 0 {
+			epoch, m = m[:i+1], m[i+1:]
+		}
+		comps := strings.Split(m, ".")
+		var bases []string
+		for k := 1; k <= len(comps); k++ {
+			bases = append(bases, strings.Join(comps[:k], "."))
+		}
+		bases = append(bases, m+".0", m+".1", m+".0.0")
+		if len(comps) > 1 {
+			bases = append(bases, strings.Join(comps[:len(comps)-1], ".")+".0", strings.Join(comps[:len(comps)-1], ".")+".999999")
+		}
+		for _, b := range bases {
+			for _, sfx := range append([]string{""}, pres...) {
+				add(prefix + epoch + b + sfx)
+				if epoch != "" {
+					add(prefix + b + sfx)
+				}
+			}
+		}
+	}
+	if len(out) > 160 {
+		out = out[:160]
+	}
+	return out
 }
 
 func checkC06(ctx *Ctx) {
@@ -136,7 +183,17 @@ func checkC06(ctx *Ctx) {
 						if !pr.OK {
 							continue
 						}
-						for _, gv := range grid {
+						// versions that share a numeric prefix with the numbers written in the
+						// construct, at every shorter and longer arity, released and pre-released:
+						// a predicate that walks the base's components must cope with a version
+						// that agrees with the base as far as it goes and then stops
+						vlist := append([]any{}, grid...)
+						for _, t := range prefixRelatives(c.Rng, se.Prefix, append(append([]string{}, se.Pre...), c06ExtraPre...)) {
+							if pv := e.Parse(t); pv.OK {
+								vlist = append(vlist, pv.Val)
+							}
+						}
+						for _, gv := range vlist {
 							_, pan := e.Contains(pr.Val, gv)
 							local++
 							if pan != "" {
